@@ -1,1 +1,152 @@
-import Hw.Bitmap.Ops
+/-
+  Property C03 — bitmap operations implement exact (finite or cofinite) set semantics.
+
+  Property theorems only; the model is `Hw.Bitmap.Ops` (representation-exact: `ulongs_count`
+  words + `infinite` flag), proofs of the supporting lemmas live in `Hw.Bitmap.*`.
+  Sets are membership functions `Nat → Bool` (`Bitmap.mem`).  Every statement holds for all
+  bitmaps whatsoever (any word count, any flag) — `Inv` (count ≥ 1) is needed nowhere except
+  to show it is itself preserved.
+-/
+import Hw.Bitmap.History
+namespace Hw.Props.C03
+open Hw Hw.Bitmap
+
+/-! ## 1. every modifying call refines the set operation, for every history -/
+
+/-- one step: destination handle and the denoted set are those of the mathematical operation -/
+theorem C03_step_refines (p : Pool) (op : Op) :
+    (op.eval p).1 = (specEval p.abs (fun h => (p h).first) op).1 ∧
+    ∀ n, (op.eval p).2.mem n = (specEval p.abs (fun h => (p h).first) op).2 n :=
+  eval_refines p op
+
+/-- every pool reachable by any sequence of API calls satisfies the C invariant `ulongs_count ≥ 1` -/
+theorem C03_reachable_inv (ops : List Op) : ∀ h, ((run Pool.init ops) h).Inv :=
+  run_inv _ init_inv ops
+
+/-! ## 2. queries are functions of the denoted sets only -/
+
+theorem C03_isset (b : Bitmap) (n : Nat) : b.isset n = b.mem n := rfl
+theorem C03_iszero (b : Bitmap) : b.iszero = true ↔ ∀ n, b.mem n = false := iszero_iff b
+theorem C03_isfull (b : Bitmap) : b.isfull = true ↔ ∀ n, b.mem n = true := isfull_iff b
+theorem C03_isequal (a b : Bitmap) : a.isequal b = true ↔ ∀ n, a.mem n = b.mem n := isequal_iff a b
+theorem C03_intersects (a b : Bitmap) :
+    a.intersects b = true ↔ ∃ n, a.mem n = true ∧ b.mem n = true := intersects_iff a b
+theorem C03_isincluded (a b : Bitmap) :
+    a.isincluded b = true ↔ ∀ n, a.mem n = true → b.mem n = true := isincluded_iff a b
+
+/-- `first`: the least member, −1 for the empty set -/
+theorem C03_first (b : Bitmap) : IsFirst b.mem b.first := first_spec b
+/-- `next(prev)` for `prev ≥ −1`: the least member above `prev`, −1 if none -/
+theorem C03_next (b : Bitmap) (prev : Int) (h : -1 ≤ prev) : IsNext b.mem prev (b.next prev) := next_spec b prev h
+/-- `last`: the greatest member; −1 for the empty set and for infinite sets -/
+theorem C03_last (b : Bitmap) : IsLast b.mem b.last := last_spec b
+theorem C03_first_unset (b : Bitmap) : IsFirst (fun n => !b.mem n) b.firstUnset := firstUnset_spec b
+theorem C03_next_unset (b : Bitmap) (prev : Int) (h : -1 ≤ prev) :
+    IsNext (fun n => !b.mem n) prev (b.nextUnset prev) := nextUnset_spec b prev h
+theorem C03_last_unset (b : Bitmap) : IsLast (fun n => !b.mem n) b.lastUnset := lastUnset_spec b
+
+/-- `weight`: −1 iff infinitely set, else the number of members (counted below any bound `N`
+above all members) -/
+theorem C03_weight_infinite (b : Bitmap) (h : b.inf = true) : b.weight = -1 := weight_infinite b h
+theorem C03_weight_finite (b : Bitmap) (h : b.inf = false) (N : Nat) (hN : ∀ m, N ≤ m → b.mem m = false) :
+    b.weight = (((List.range N).countP b.mem : Nat) : Int) := weight_spec b h N hN
+/-- the flag is itself a function of the set: set ⇔ the set is unbounded -/
+theorem C03_inf_iff (b : Bitmap) : b.inf = true ↔ ∀ N, ∃ m, N ≤ m ∧ b.mem m = true := by
+  constructor
+  · intro h N
+    exact ⟨max N (b.count * 64), Nat.le_max_left _ _, by rw [mem_of_ge b _ (Nat.le_max_right _ _)]; exact h⟩
+  · intro h
+    obtain ⟨m, hm, hs⟩ := h (b.count * 64)
+    rw [mem_of_ge b m hm] at hs; exact hs
+
+theorem C03_to_ith_ulong (b : Bitmap) (k j : Nat) (hj : j < 64) :
+    (b.toIthUlong k).getLsbD j = b.mem (64 * k + j) := toIthUlong_getLsbD b k j hj
+theorem C03_to_ulong (b : Bitmap) (j : Nat) (hj : j < 64) : b.toUlong.getLsbD j = b.mem j := toUlong_getLsbD b j hj
+theorem C03_to_ulongs (b : Bitmap) (nr k : Nat) (h : k < nr) :
+    (b.toUlongs nr)[k]'(by simp [toUlongs, h]) = b.toIthUlong k := toUlongs_getElem b nr k h
+
+theorem C03_nr_ulongs_infinite (b : Bitmap) (h : b.inf = true) : b.nrUlongs = -1 := nrUlongs_infinite b h
+theorem C03_nr_ulongs_empty (b : Bitmap) (h : b.inf = false) (hl : b.last = -1) : b.nrUlongs = 0 :=
+  nrUlongs_empty b h hl
+theorem C03_nr_ulongs_last (b : Bitmap) (h : b.inf = false) (l : Nat) (hl : b.last = (l : Int)) :
+    b.nrUlongs = ((l / 64 + 1 : Nat) : Int) := nrUlongs_last b h l hl
+
+/-- `compare`: decided at the highest index where the sets differ (an eventually-full set is
+above an eventually-empty one) -/
+theorem C03_compare (a b : Bitmap) : IsCompare a.mem b.mem (a.compare b) := compare_spec a b
+
+/-! ## 3. results do not depend on the representation (the history that built the arguments) -/
+
+section ReprIndependence
+variable {a a' b b' : Bitmap}
+
+theorem C03_repr_first (h : ∀ n, a.mem n = a'.mem n) : a.first = a'.first := by
+  have e : a.mem = a'.mem := funext h
+  have h1 := first_spec a; rw [e] at h1
+  exact h1.unique (first_spec a')
+theorem C03_repr_next (h : ∀ n, a.mem n = a'.mem n) (prev : Int) (hp : -1 ≤ prev) : a.next prev = a'.next prev := by
+  have e : a.mem = a'.mem := funext h
+  have h1 := next_spec a prev hp; rw [e] at h1
+  exact h1.unique (next_spec a' prev hp)
+theorem C03_repr_last (h : ∀ n, a.mem n = a'.mem n) : a.last = a'.last := by
+  have e : a.mem = a'.mem := funext h
+  have h1 := last_spec a; rw [e] at h1
+  exact h1.unique (last_spec a')
+theorem C03_repr_first_unset (h : ∀ n, a.mem n = a'.mem n) : a.firstUnset = a'.firstUnset := by
+  have e : a.mem = a'.mem := funext h
+  have h1 := firstUnset_spec a; rw [e] at h1
+  exact h1.unique (firstUnset_spec a')
+theorem C03_repr_next_unset (h : ∀ n, a.mem n = a'.mem n) (prev : Int) (hp : -1 ≤ prev) :
+    a.nextUnset prev = a'.nextUnset prev := by
+  have e : a.mem = a'.mem := funext h
+  have h1 := nextUnset_spec a prev hp; rw [e] at h1
+  exact h1.unique (nextUnset_spec a' prev hp)
+theorem C03_repr_last_unset (h : ∀ n, a.mem n = a'.mem n) : a.lastUnset = a'.lastUnset := by
+  have e : a.mem = a'.mem := funext h
+  have h1 := lastUnset_spec a; rw [e] at h1
+  exact h1.unique (lastUnset_spec a')
+theorem C03_repr_inf (h : ∀ n, a.mem n = a'.mem n) : a.inf = a'.inf :=
+  readWord_eq_imp_inf a a' ((mem_ext_iff a a').mp h)
+theorem C03_repr_to_ith_ulong (h : ∀ n, a.mem n = a'.mem n) (k : Nat) : a.toIthUlong k = a'.toIthUlong k :=
+  (mem_ext_iff a a').mp h k
+theorem C03_repr_weight (h : ∀ n, a.mem n = a'.mem n) : a.weight = a'.weight := by
+  have hi := C03_repr_inf h
+  cases hinf : a.inf with
+  | true => rw [weight_infinite a hinf, weight_infinite a' (hi ▸ hinf)]
+  | false =>
+    have hinf' : a'.inf = false := hi ▸ hinf
+    have hN : ∀ m, max a.count a'.count * 64 ≤ m → a.mem m = false := fun m hm => by
+      rw [mem_of_ge a m (Nat.le_trans (Nat.mul_le_mul_right _ (Nat.le_max_left _ _)) hm), hinf]
+    rw [weight_spec a hinf _ hN, weight_spec a' hinf' _ (fun m hm => by rw [← h m]; exact hN m hm)]
+    have e : a.mem = a'.mem := funext h
+    rw [e]
+theorem C03_repr_iszero (h : ∀ n, a.mem n = a'.mem n) : a.iszero = a'.iszero := by
+  apply Bool.eq_iff_iff.mpr; rw [iszero_iff, iszero_iff]; simp only [h]
+theorem C03_repr_isfull (h : ∀ n, a.mem n = a'.mem n) : a.isfull = a'.isfull := by
+  apply Bool.eq_iff_iff.mpr; rw [isfull_iff, isfull_iff]; simp only [h]
+theorem C03_repr_isequal (h : ∀ n, a.mem n = a'.mem n) (g : ∀ n, b.mem n = b'.mem n) :
+    a.isequal b = a'.isequal b' := by
+  apply Bool.eq_iff_iff.mpr; rw [isequal_iff, isequal_iff]; simp only [h, g]
+theorem C03_repr_intersects (h : ∀ n, a.mem n = a'.mem n) (g : ∀ n, b.mem n = b'.mem n) :
+    a.intersects b = a'.intersects b' := by
+  apply Bool.eq_iff_iff.mpr; rw [intersects_iff, intersects_iff]; simp only [h, g]
+theorem C03_repr_isincluded (h : ∀ n, a.mem n = a'.mem n) (g : ∀ n, b.mem n = b'.mem n) :
+    a.isincluded b = a'.isincluded b' := by
+  apply Bool.eq_iff_iff.mpr; rw [isincluded_iff, isincluded_iff]; simp only [h, g]
+
+end ReprIndependence
+
+/-! ## non-vacuity: two different representations of the set {64, 65, …} -/
+
+def ex1 : Bitmap := (Bitmap.alloc.setRange 64 none)               -- words [0, ~0], infinite
+def ex2 : Bitmap := ((Bitmap.alloc.fill).clrRange 0 (some 63))    -- words [0], infinite
+example : ex1 ≠ ex2 := by decide
+example : ex1.count = 2 ∧ ex2.count = 1 := by decide
+example : ∀ n, ex1.mem n = ex2.mem n := by
+  intro n
+  show (Bitmap.alloc.setRange 64 none).mem n = ((Bitmap.alloc.fill).clrRange 0 (some 63)).mem n
+  rw [mem_setRange_none, mem_clrRange_some, mem_fill, mem_alloc]
+  by_cases h : 64 ≤ n <;> simp [h] <;> omega
+example : ex1.first = 64 ∧ ex2.first = 64 := by decide
+
+end Hw.Props.C03
